@@ -562,6 +562,18 @@ func runC18(c *Ctx) {
 						x = cohortVariant(r, ref.Encode(r.Chance(1, 4), big.NewInt(1), n))
 						y = ref.Encode(false, big.NewInt(cc), k)
 						if r.Chance(1, 3) {
+							// integer exponents whose coefficient needs more than one machine word while its low
+							// word alone is a small number: m*2^64 + s (the exact power is far out of range)
+							yc := new(big.Int).Lsh(big.NewInt(int64(r.Pick(1, 1, 2, 3, 1<<20, r.Range(1, 1<<30)))), uint(r.Pick(64, 64, 64, 65, 96, 108)))
+							yc.Add(yc, big.NewInt(int64(r.Pick(0, 0, 1, 3, 7, 100, 6211, 6212, r.Range(0, 7000)))))
+							kk := r.Intn(8)
+							if yc.Cmp(ref.Cmax) > 0 {
+								yc.Rsh(yc, 44)
+							}
+							y = ref.Encode(false, yc, kk)
+							j.sh.Cell("gen/multiword-integer-exponent")
+						}
+						if r.Chance(1, 3) {
 							if alt, ok := r.CohortMember(ref.Decode(y)); ok {
 								y = alt
 							}
